@@ -322,26 +322,54 @@ func runC07Flags(c *Ctx) {
 	extBit := bitOf("twkbHasExtPrec")
 	flagBit := map[string]int64{"hasExt": extBit, "hasSize": bitOf("twkbHasSize"), "hasBBox": bitOf("twkbHasBBox"), "hasIDs": bitOf("twkbHasIDs")}
 
-	// (b0) the builder ORs each bit exactly under its flag
-	for flag, bit := range flagBit {
-		found := false
-		eachInstr(builder, func(in ssa.Instruction) {
-			bo, ok := in.(*ssa.BinOp)
-			if !ok || bo.Op != token.OR {
-				return
+	// (b0) the builder ORs each bit exactly under its flag: interpreted on all 16 flag combinations,
+	// the byte handed to writeMetadataHeader is the OR of the bits of the flags that are set
+	builderExtOK := false
+	{
+		flags := []string{"hasExt", "hasSize", "hasBBox", "hasIDs"}
+		problemFor := map[string]string{}
+		undec := ""
+		for mask := 0; mask < 16 && undec == ""; mask++ {
+			m := &Model{Num: map[string]float64{}, Bool: map[string]bool{}, Missing: map[string]bool{}}
+			var want int64
+			for i, fl := range flags {
+				on := mask&(1<<uint(i)) != 0
+				m.Bool["$0."+fl] = on
+				if on {
+					want |= flagBit[fl]
+				}
 			}
-			k, isC := constInt(bo.Y)
-			if !isC {
-				k, isC = constInt(bo.X)
+			it := &k4interp{p: c.P, m: m, mem: map[string]k4val{}}
+			got, seen := int64(-1), false
+			it.onOpaque = func(name string, args []k4val) {
+				if strings.HasSuffix(name, ").writeMetadataHeader") && len(args) == 2 && args[1].kind == 2 {
+					got, seen = int64(args[1].f), true
+				}
 			}
-			if !isC || k != bit {
-				return
+			if _, err := it.call(builder, []k4val{{kind: 3, s: "$0"}}, nil); err != nil || !seen {
+				undec = fmt.Sprintf("%v (metadata header seen: %v) %s", err, seen, missingList(m))
+				break
 			}
-			if truth, ok := boolFieldGuard(in, "twkbWriter", flag); ok && truth {
-				found = true
+			for _, fl := range flags {
+				if (got&flagBit[fl] != 0) != (want&flagBit[fl] != 0) && problemFor[fl] == "" {
+					problemFor[fl] = fmt.Sprintf("with %s the header builder writes 0x%02x: the metadata bit %d does not follow w.%s", modelString(m), got, flagBit[fl], fl)
+				}
 			}
-		})
-		c.Check(found, builder.Pos(), FuncName(builder), "metadata bit for "+flag, "bit OR-ed under guard w."+flag, fmt.Sprintf("the metadata bit %d is not set under guard w.%s in the header builder", bit, flag))
+		}
+		for _, fl := range flags {
+			construct := "metadata bit for " + fl
+			switch {
+			case undec != "":
+				c.Undecided(builder.Pos(), FuncName(builder), construct, "cannot interpret the header builder: "+undec)
+			case problemFor[fl] != "":
+				c.Bad(builder.Pos(), FuncName(builder), construct, problemFor[fl])
+			default:
+				if fl == "hasExt" {
+					builderExtOK = true
+				}
+				c.OK(builder.Pos(), FuncName(builder), construct, "bit set exactly when w."+fl+" is (all 16 flag combinations interpreted)")
+			}
+		}
 	}
 
 	// (b) every call of writeMetadataHeader: argument carries ext bit under hasExt, and the ext byte follows under hasExt
@@ -363,6 +391,9 @@ func runC07Flags(c *Ctx) {
 				}
 				return false
 			})
+			if f == builder && builderExtOK {
+				hasExtBit = true // decided by interpretation above
+			}
 			followed := false
 			for _, c2 := range callsTo(f, FuncName(extW)) {
 				if truth, ok := boolFieldGuard(c2, "twkbWriter", "hasExt"); ok && truth && !instrDominates(c2, call) {
@@ -819,6 +850,8 @@ func checkCtypeFlow(c *Ctx, set []*ssa.Function, isSource func(ssa.Value) bool, 
 			}
 			n++
 			construct := "non-error return of " + rt
+			// where guards are read: the return, or (for a member of a locally built list) the store of the member
+			var at ssa.Instruction = r
 			var check func(v ssa.Value, depth int) (string, bool, string)
 			check = func(v ssa.Value, depth int) (via string, ok bool, why string) {
 				if depth > 6 {
@@ -868,7 +901,11 @@ func checkCtypeFlow(c *Ctx, set []*ssa.Function, isSource func(ssa.Value) bool, 
 								if !ok || st.Addr != ssa.Value(ia) {
 									continue
 								}
-								if _, ok, why := check(st.Val, depth+1); !ok {
+								saved := at
+								at = st
+								_, ok, why := check(st.Val, depth+1)
+								at = saved
+								if !ok {
 									return false, "a member stored into the list at " + c.P.Pos(st.Pos()) + " is not typed: " + why
 								}
 							}
@@ -887,7 +924,7 @@ func checkCtypeFlow(c *Ctx, set []*ssa.Function, isSource func(ssa.Value) bool, 
 						if ok, why := membersTyped(list); !ok {
 							return "via " + name, false, why
 						}
-						if nonEmptyGuard(r, list) || madeNonEmpty(r, list) || appendedNonEmpty(list, map[ssa.Value]bool{}) || loopAppendedNonEmpty(r, list) || helperListNonEmpty(r, list) {
+						if nonEmptyGuard(at, list) || madeNonEmpty(at, list) || appendedNonEmpty(list, map[ssa.Value]bool{}) || loopAppendedNonEmpty(at, list) || helperListNonEmpty(at, list) {
 							return "via " + name, true, "list argument is provably non-empty (dominating guard), so the constructor derives the type from typed members"
 						}
 						return "via " + name, false, "collection constructor over a possibly empty list yields an XY geometry regardless of " + srcDesc + "; one such empty member strips Z/M from its siblings"
@@ -922,6 +959,14 @@ func madeNonEmpty(at ssa.Instruction, list ssa.Value) bool {
 	switch x := stripLoad(list).(type) {
 	case *ssa.MakeSlice:
 		return nonZeroAt(at, x.Len, 0)
+	case *ssa.Slice:
+		// a slice literal []T{a, b, …}: the whole of a fresh array of constant, non-zero length
+		if al, ok := x.X.(*ssa.Alloc); ok && x.Low == nil && x.High == nil {
+			if at, ok := deref(al.Type()).Underlying().(*types.Array); ok && at.Len() >= 1 {
+				return true
+			}
+		}
+		return false
 	case *ssa.Call:
 		// a repository helper that returns a slice made with the length of one of
 		// its slice parameters: the result is as long as that argument
